@@ -40,6 +40,16 @@ Theorem C12_read_spec : forall sig, sig_ok sig -> forall fuel c P want racc,
 Proof. exact cread_spec. Qed.
 Print Assumptions C12_read_spec.
 
+(* anything that does not start like a chunk header after the closing chunk makes the upload
+   fail, whatever length was declared, however the transport fragments it (the decoder does
+   not stop at the zero-length chunk: it reads on until the transport ends) *)
+Theorem C12_trailing_garbage_rejected : forall sig chunks g0 g sched eofw size,
+  sig_ok sig -> Forall (fun c => c <> [] /\ blen c < 2 ^ 62) chunks ->
+  hexval g0 = None ->
+  forall p, decode_readall (mk (encode sig chunks ++ g0 :: g) sched eofw) size <> DOk p.
+Proof. exact trailing_garbage_rejected. Qed.
+Print Assumptions C12_trailing_garbage_rejected.
+
 (* non-vacuity / regression witness for the short-read defect: 5-byte chunk, 2-byte consumer
    buffer, 1-byte transport reads *)
 Example C12_ex :
